@@ -786,7 +786,9 @@ class Interp:
             return NativeMethod(value, name)
         if isinstance(value, AText):
             return NativeMethod(value, name)
-        if isinstance(value, (str, list, dict, tuple, set, frozenset)) or value is None and False:
+        if isinstance(value, (str, list, dict, tuple, set, frozenset)):
+            if not hasattr(value, name):
+                self.raise_("builtins.AttributeError", "%r object has no attribute %r" % (type(value).__name__, name))
             return NativeMethod(value, name)
         if isinstance(value, (int, float)) and not isinstance(value, bool) and name in _NATIVE_METHODS.get(type(value).__name__, ()):
             return NativeMethod(value, name)
@@ -797,6 +799,11 @@ class Interp:
         hook = self.externals.get("getattr")
         if hook is not None:
             return hook(self, [value, name], {})
+        if value is None or isinstance(value, (bool, int, float, bytes)):
+            if not hasattr(value, name):
+                self.raise_("builtins.AttributeError", "%r object has no attribute %r" % (type(value).__name__, name))
+        if isinstance(value, str) and not hasattr(value, name):
+            self.raise_("builtins.AttributeError", "'str' object has no attribute %r" % (name,))
         raise Undecided("attribute %s of %r" % (name, value))
 
     def setattr(self, target, name, value):
